@@ -1151,6 +1151,35 @@ def write_acc() -> list[str]:
     return errors
 
 
+# --------------------------------------------------------------------------------------------------------------- isolation
+WRITERS = {"cc": "write_cc", "multi": "write_multi", "gm": "write_gm", "acc": "write_acc"}
+
+
+def run_isolated(which: str, timeout: int = 600) -> list[str]:
+    """Run a capture + regeneration in a SEPARATE python process.  The capture runs the real code on DuckDB; a DuckDB instance that is
+    still alive in the checking process when it forks its worker pool makes the workers hang in DuckDB's destructor (observed), so the
+    checking process itself never opens a database."""
+    import json
+    import subprocess
+    import sys
+
+    code = (
+        "import json, sys, logging\n"
+        "logging.disable(logging.CRITICAL)\n"
+        "from harness.translate import tsql\n"
+        f"errs = getattr(tsql, {WRITERS[which]!r})()\n"
+        "print('TSQL-RESULT ' + json.dumps(errs))\n"
+    )
+    try:
+        p = subprocess.run([sys.executable, "-c", code], capture_output=True, text=True, timeout=timeout, cwd=str(core.VERIF))
+    except subprocess.TimeoutExpired:
+        return [f"T-sql capture {which} timed out after {timeout}s"]
+    for line in p.stdout.splitlines():
+        if line.startswith("TSQL-RESULT "):
+            return json.loads(line[len("TSQL-RESULT "):])
+    return [f"T-sql capture {which} failed: {(p.stderr or p.stdout)[-600:]}"]
+
+
 if __name__ == "__main__":
     import sys
 
